@@ -126,8 +126,26 @@ def _deriv_arg(rng, n, labels, kind):
 
 def _history_case(rng):
     """Grow-only history: steps are ('append', label) | ('extend', [labels]) | ('read', what)."""
-    kind = rng.choice(['auto', 'int', 'str', 'mixed', 'IndexDate', 'hier2', 'hier3', 'float'])
+    kind = rng.choice(['auto', 'int', 'str', 'mixed', 'IndexDate', 'hier2', 'hier3', 'float', 'dt64', 'hier3'])
     steps = []
+    if kind == 'hier3' and rng.random() < 0.4:
+        # started by from_product (whose branches may share their lower levels) and grown under and beside the last outer label
+        levels = [rng.sample(['a', 'b', 'c'], 2), rng.sample([1, 2, 3], 2), rng.sample(['x', 'y', 'z'], 2)]
+        import itertools as it
+        start = list(it.product(*levels))
+        o, m = levels[0][-1], levels[1][-1]
+        fresh_inner = [v for v in ['x', 'y', 'z', 'w'] if v not in levels[2]]
+        fresh_mid = [v for v in [1, 2, 3, 4] if v not in levels[1]]
+        rest = [(o, m, fresh_inner[0]), (o, m, fresh_inner[1]), (o, fresh_mid[0], levels[2][0]), (o, fresh_mid[0], fresh_inner[0]),
+                ('q', levels[1][0], levels[2][0]), ('q', levels[1][0], fresh_inner[0])]
+        i = 0
+        for _ in range(rng.randint(2, 8)):
+            if rng.random() < 0.6 and i < len(rest):
+                steps.append(('append', rest[i]))
+                i += 1
+            else:
+                steps.append(('read', rng.choice(['values', 'len', 'iter', 'loc', 'contains', 'depth_values', 'static_init', 'go_init', 'rename'])))
+        return {'t': 'history', 'kind': kind, 'start': start, 'steps': steps, 'start_route': 'from_product', 'levels': levels}
     if kind.startswith('hier'):
         depth = int(kind[4])
         pool = L.tree_labels(depth, 14, rng)
@@ -189,6 +207,19 @@ def _history_case(rng):
     pool = L.flat_labels(kind, 16, rng)
     n0 = rng.randint(0, min(4, len(pool)))
     start, rest = pool[:n0], pool[n0:]
+    if kind == 'dt64' and pool:
+        # labels of a finer unit that fall inside a day the index may already hold: distinct instants, so distinct labels
+        rest = list(rest)
+        for j in range(0, len(rest), 3):
+            day = rng.choice(pool)
+            if day == day:
+                rest[j] = np.datetime64(day, 'm') + np.timedelta64(rng.choice([750, 1, 61]), 'm')
+        seen, uniq = set(), []
+        for x in rest:
+            if cs(x) not in seen and all(cs(x) != cs(y) for y in start):
+                seen.add(cs(x))
+                uniq.append(x)
+        rest = uniq
     i = 0
     held = list(start)  # labels certainly held whatever the library does with a rejected partial extend
     for _ in range(rng.randint(1, 12)):
@@ -803,7 +834,9 @@ def _check_history(case, ctx):
     hier = kind.startswith('hier')
     if hier:
         depth = int(kind[4])
-        if case.get('start_route') == 'from_tree' and start:
+        if case.get('start_route') == 'from_product':
+            idx = sf.IndexHierarchyGO.from_product(*case['levels'])
+        elif case.get('start_route') == 'from_tree' and start:
             idx = sf.IndexHierarchyGO.from_tree(_tree_dict(start))
         else:
             idx = sf.IndexHierarchyGO.from_labels(start, depth_reference=depth)
